@@ -1,0 +1,106 @@
+//go:build verif
+
+package shaping
+
+import (
+	"fmt"
+	"unsafe"
+
+	"golang.org/x/image/math/fixed"
+)
+
+// Verification hook (C02): runs the storage operations of a wrapBuffer on a trace and reports where the
+// lines handed out by finalizeBest live. Every Output is tagged through its Advance.
+
+// VerifBufOp is one operation inside a line: Kind 0 candidateAppend(Tags[0]), 1 markCandidateBest(Tags...),
+// 2 candidateSave, 3 candidateRestore.
+type VerifBufOp struct {
+	Kind int   `json:"k"`
+	Tags []int `json:"t,omitempty"`
+}
+
+// VerifBufLine is what one startLine ... finalizeBest returned.
+type VerifBufLine struct {
+	Nil       bool  // finalizeBest returned a nil slice
+	Returned  []int // tags read through the returned slice when it was returned
+	InLine    bool  // wrapBuffer.bestInLine
+	Off       int   // offset of the returned slice inside the line storage, -1 when it is not there (or empty)
+	LineUsed  int
+	Exhausted bool
+	Final     []int // tags read through the same slice after the last line of the paragraph
+}
+
+// VerifBufPara is one reset followed by lines.
+type VerifBufPara struct {
+	Cap   int // cap(line) after reset
+	Lines []VerifBufLine
+	Panic string
+}
+
+// VerifWrapBufferTrace runs the paragraphs on one wrapBuffer.
+func VerifWrapBufferTrace(paras [][][]VerifBufOp) []VerifBufPara {
+	var w wrapBuffer
+	tag := func(t int) Output { return Output{Advance: fixed.Int26_6(t)} }
+	read := func(s []Output) []int {
+		out := make([]int, len(s))
+		for i := range s {
+			out[i] = int(s[i].Advance)
+		}
+		return out
+	}
+	var res []VerifBufPara
+	for _, para := range paras {
+		var p VerifBufPara
+		var held [][]Output
+		func() {
+			defer func() {
+				if r := recover(); r != nil {
+					p.Panic = fmt.Sprint(r)
+				}
+			}()
+			w.reset()
+			p.Cap = cap(w.line)
+			for _, ops := range para {
+				w.startLine()
+				for _, op := range ops {
+					switch op.Kind {
+					case 0:
+						w.candidateAppend(tag(op.Tags[0]))
+					case 1:
+						sfx := make([]Output, len(op.Tags))
+						for i, t := range op.Tags {
+							sfx[i] = tag(t)
+						}
+						w.markCandidateBest(sfx...)
+					case 2:
+						w.candidateSave()
+					case 3:
+						w.candidateRestore()
+					}
+				}
+				inLine := w.bestInLine
+				best := w.finalizeBest()
+				l := VerifBufLine{Nil: best == nil, Returned: read(best), InLine: inLine, Off: -1, LineUsed: w.lineUsed, Exhausted: w.lineExhausted}
+				if len(best) > 0 && cap(w.line) > 0 {
+					full := w.line[:cap(w.line)]
+					base := uintptr(unsafe.Pointer(&full[0]))
+					at := uintptr(unsafe.Pointer(&best[0]))
+					size := unsafe.Sizeof(Output{})
+					if at >= base && at < base+uintptr(len(full))*size {
+						l.Off = int((at - base) / size)
+					}
+				}
+				held = append(held, best)
+				p.Lines = append(p.Lines, l)
+			}
+		}()
+		for i := range p.Lines {
+			p.Lines[i].Final = read(held[i])
+		}
+		res = append(res, p)
+		if p.Panic != "" {
+			break
+		}
+	}
+	return res
+}
